@@ -363,7 +363,7 @@ func (ctx *Context) LoadNameWithDetail(name string, isRaw bool, useHook bool, de
 		ret := curCtx.LoadNameLocalWithDetail(name, isRaw, detail)
 		if curCtx != ctx {
 			// 在外层上下文中找到的计算值，其消耗记在外层的计数上，而当前函数返回时外层计数会被当前计数覆盖，需要同步到当前上下文
-			ctx.NumOpCount += curCtx.NumOpCount - opCountBefore
+			ctx.NumOpCount = opCountAdd(ctx.NumOpCount, curCtx.NumOpCount-opCountBefore)
 		}
 
 		if curCtx.Error != nil {
@@ -1520,7 +1520,7 @@ func (v *VMValue) ComputedExecute(ctx *Context, detail *BufferSpan) *VMValue {
 	vm.GlobalValueLoadOverwriteFunc = ctx.GlobalValueLoadOverwriteFunc
 	vm.subThreadDepth = ctx.subThreadDepth + 1
 	vm.UpCtx = ctx
-	vm.NumOpCount = ctx.NumOpCount + 100
+	vm.NumOpCount = opCountAdd(ctx.NumOpCount, 100)
 	ctx.NumOpCount = vm.NumOpCount // 防止无限递归
 	vm.RandSrc = ctx.RandSrc
 	vm.forceSolveDetail = true
@@ -1613,7 +1613,7 @@ func (v *VMValue) FuncInvokeRaw(ctx *Context, params []*VMValue, useUpCtxLocal b
 	vm.GlobalValueLoadOverwriteFunc = ctx.GlobalValueLoadOverwriteFunc
 	vm.subThreadDepth = ctx.subThreadDepth + 1
 	vm.UpCtx = ctx
-	vm.NumOpCount = ctx.NumOpCount + 100 // 递归视为消耗 + 100
+	vm.NumOpCount = opCountAdd(ctx.NumOpCount, 100) // 递归视为消耗 + 100
 	ctx.NumOpCount = vm.NumOpCount       // 防止无限递归
 	vm.RandSrc = ctx.RandSrc
 	vm.CustomFlag = ctx.CustomFlag
